@@ -317,3 +317,10 @@ def compare_cond_plain(impl, model, rtol, where="", marg=None):
             if not abs(a - fb) <= tol:
                 return f"{where} cond.Q[{i}][{j}]: implementation {a!r} vs model {fb!r} (sd {si:.3g},{sj:.3g})", None
     return None, out_w
+
+
+def coq_spec_smooth(c, states):
+    grid = c["grid"]
+    dts = [grid[i + 1] - grid[i] for i in range(len(grid) - 1)]
+    sts = "[" + "; ".join(coq_state(c, e) for e in states[1:]) + "]"
+    return f"spec_smooth_run {coq_config(c)} {coq_state(c, states[0])} {sts} {lib.qclist(dts)}"
